@@ -925,11 +925,36 @@ func driveCoreLeaks(t *testing.T, w *CaseWriter, rng *Rng) {
 		if !boundedScript(reqs) {
 			continue
 		}
-		leak := leakOf(func() { runHistory(t, inst, reqs) })
+		late := 0
+		leak := leakOf(func() {
+			obs, _ := runHistory(t, inst, reqs)
+			if len(obs) > 0 {
+				late = obs[len(obs)-1].Late
+			}
+		})
+		if leak == "" && late > 0 {
+			leak = fmt.Sprintf("%d listener or function log entries were written during the hour after the last execution had completed (a timer left armed?)", late)
+		}
 		w.Add(func(id int) string { return fmt.Sprintf("CaseCore %d 1 %s", id, gBool(leak != "")) },
 			map[string]any{"scenario": "executions through a random stack", "requests": len(reqs), "leak": leak}, len(reqs[0].Stack) >= 2, fmt.Sprint("core", i))
 		w.Stat("core=stack")
 	}
+	// executions whose caller's context is already done when they start (every policy is entered cancelled), then the hour
+	preCancelled(rng, n/3, true, func(inst InstD, reqs []ReqD, _ string) {
+		late := 0
+		leak := leakOf(func() {
+			obs, _ := runHistory(t, inst, reqs)
+			if len(obs) > 0 {
+				late = obs[len(obs)-1].Late
+			}
+		})
+		if leak == "" && late > 0 {
+			leak = fmt.Sprintf("%d listener or function log entries were written during the hour after the last execution had completed (a timer left armed?)", late)
+		}
+		w.Add(func(id int) string { return fmt.Sprintf("CaseCore %d 5 %s", id, gBool(leak != "")) },
+			map[string]any{"scenario": "execution started with a context that is already done", "stack_depth": len(reqs[0].Stack), "leak": leak}, true, fmt.Sprint("pre", w.Total))
+		w.Stat("core=pre-cancelled")
+	})
 	// hedged executions, incl. cancelled ones and attempts that ignore the cancellation
 	for i := 0; i < n; i++ {
 		h := genHedgeCase(rng)
